@@ -31,6 +31,10 @@ CLAIMED = {
                 text="Bounded runtime contract over the selectable evaluation strategies (cached, factorised, p4, tf.function/XLA, lazy, cached likelihoods) vs plain eager evaluation; "
                      "custom einsum vs reference contraction proved per (expression, shape) for all tensor values where built.",
                 note=KERNEL_NOTE + "; TF graph/XLA compilation is exercised only by the bounded comparison", technique=TECH_B + "; " + TECH_S),
+    "C10": dict(level="proof", design="3/C10",
+                text="Exact event count for all n (loop-invariant VCs generated from the AST of PhaseSpaceGenerator.generate), boost/rest-frame kernel contracts proved; "
+                     "on-shell/conservation/weight<=1/nested chains/flatness are bounded runtime contracts (statistical flatness only in thorough, labelled).",
+                note=KERNEL_NOTE + "; A-MATH Raubold-Lynch; termination of the refill loop and empirical flatness are not claimed as proofs", technique="AST verification conditions (z3 LIA) + " + TECH_S + "; " + TECH_B),
     "C11": dict(level="proof", design="3/C11",
                 text="Function contracts on the real kinematics code (boost, rest_vector, boost_matrix, M2/Dot, unit/cross_unit, Euler-angle extraction, Dalitz momenta) "
                      "executed symbolically and discharged for all real inputs satisfying the stated preconditions; the tiny-velocity tolerance clause is bounded and reported separately.",
@@ -48,6 +52,14 @@ CLAIMED = {
     "C15": dict(level="proof", design="3/C15",
                 text="Barrier-factor coefficient tables and generator equal |theta_L(i sqrt z)|^2 exactly for L<=8; line-shape formula contracts proved symbolically where built; grids are bounded.",
                 note=KERNEL_NOTE, technique=TECH_G + "; " + TECH_S),
+    "C18": dict(level="proof", design="3/C18",
+                text="The batching loop of _data_split is proved (for all sample and batch sizes) to yield consecutive, non-empty, covering slices from VCs generated from its AST; "
+                     "merge/map/mask/index algebra, LazyCall and all file round trips are bounded runtime contracts over nested structures, sizes, particle orders.",
+                note=KERNEL_NOTE + "; A-LIB numpy I/O", technique="AST verification conditions (z3 LIA); " + TECH_B),
+    "C20": dict(level="other", design="3/C20",
+                text="Bounded runtime contracts: exact toy counts, weight<=bound, CDF inversion of the 1-D samplers, InterpND support, adaptive-bin partition and population bound, histogram sums; "
+                     "statistical statements only in the thorough tier with stated false-alarm bounds.",
+                note=KERNEL_NOTE + "; A-LIB np.histogram/percentile; empirical distributions are not provable by this technique", technique=TECH_B),
 }
 
 NOT_YET = "check not built yet in this round (see DESIGN.md section 5 for the construction order)"
